@@ -42,11 +42,11 @@ def rand_text(rng, maxlen=24):
 
 TEXTNS = 'urn:oasis:names:tc:opendocument:xmlns:text:1.0'
 OFFICENS = 'urn:oasis:names:tc:opendocument:xmlns:office:1.0'
-FOREIGN = ['urn:example:verif:one', 'http://example.org/ns/two&x', 'urn:x-verif:three']
-ELEMS = [(TEXTNS, 'p'), (TEXTNS, 'span'), (TEXTNS, 'h'), (OFFICENS, 'annotation'), (FOREIGN[0], 'elem'),
+FOREIGN = ['urn:example:verif:one', 'http://example.org/ns/two&x', 'urn:x-verif:three', 'urn:q"uote\'s\tx']
+ELEMS = [('', 'bare'), (FOREIGN[3], 'q'), (TEXTNS, 'p'), (TEXTNS, 'span'), (TEXTNS, 'h'), (OFFICENS, 'annotation'), (FOREIGN[0], 'elem'),
          (FOREIGN[1], 'e2'), (FOREIGN[2], 'x-y.z_1'), (TEXTNS, 'a')]
 # attribute names without an attribute converter (so setAttrNS stores str(value) unchanged)
-ATTRS = [(FOREIGN[0], 'a'), (FOREIGN[0], 'b'), (FOREIGN[1], 'a'), (FOREIGN[2], 'c-d'), (TEXTNS, 'verif-x'), (OFFICENS, 'verif-y')]
+ATTRS = [('', 'plain'), ('', 'other'), (FOREIGN[3], 'qa'), (FOREIGN[0], 'a'), (FOREIGN[0], 'b'), (FOREIGN[1], 'a'), (FOREIGN[2], 'c-d'), (TEXTNS, 'verif-x'), (OFFICENS, 'verif-y')]
 
 def rand_tree(rng, depth=0, maxdepth=4):
     q = rng.choice(ELEMS)
